@@ -547,7 +547,12 @@ def r17_slot_cover(ctx):
     f = dur.methods.get("to_days")
     if f is not None:
         w = set()
-        for nv in ("new",):
+        copies = [n.targets[0].id for n in walk_no_nested(f.node)
+                  if isinstance(n, ast.Assign) and isinstance(
+                      n.targets[0], ast.Name) and isinstance(
+                          n.value, ast.Call) and U(n.value.func).endswith(
+                              "._copy")]
+        for nv in copies:
             w |= _slot_writes(ctx, f, nv)
         rep.check(set(dslots) <= w or "ALL" in w, rule,
                   ctx.fkey(f, None, "fills-all"), f.loc(),
